@@ -40,7 +40,7 @@ def eval (name : String) (P : List Int) (X : List Nat) : Ans :=
       ok [norN (p 0) X] true [LSpec.norN (p 0) X]
   | "Nand2" => ok [nand2 (p 0) (p 1) (x 0) (x 1)] (decide (p 1 ≤ p 0) || decide (x 0 < 2 ^ p 0))
       [LSpec.nandN (p 1) [x 0, x 1]]
-  | "Nor2" => ok [nor2 (p 0) (p 1) (x 0) (x 1)] (decide (x 0 < 2 ^ p 0)) [LSpec.norN (p 1) [x 0, x 1]]
+  | "Nor2" => ok [nor2 (p 0) (p 1) (x 0) (x 1)] true [LSpec.norN (p 1) [x 0, x 1]]
   | "Xor2" => ok [xor2 (p 0) (p 1) (p 2) (x 0) (x 1)] (decide (x 0 < 2 ^ p 0) && decide (x 1 < 2 ^ p 1))
       [LSpec.xorN (p 2) [x 0, x 1]]
   | "Bit" => ok [Leaf.bit (p 0) (x 0) (p 1)] (decide (1 ≤ p 0)) [LSpec.bit (x 0) (p 1)]
